@@ -1,9 +1,10 @@
 /-
   C14 — txtar quoting: NeedsQuote is exact and Quote/Unquote are inverse.
 
-  Property theorems about the model `GIV.Model.Txtar`; proofs in `GIV/Lemmas/TxtarQuote.lean`.
-  `needsQuote_exact` is proved by unfolding `Gen.Txtar.needsQuoteTestsName` (NeedsQuote returns
-  `name != ""`, not `after != nil`), so it breaks if that fact flips.
+  Property theorems about the model `GIV.Model.Txtar`; proofs in `GIV/Lemmas/TxtarQuote.lean`,
+  where the regenerated facts are hypotheses (`FNQ`: NeedsQuote returns `name != ""`, not
+  `after != nil`; `FLen`, `FCR`, `FLit` as in C03).  Each theorem discharges the facts it needs
+  from `Gen.Txtar.*` by `⟨rfl⟩`, so a changed fact breaks exactly the theorems depending on it.
 -/
 import GIV.Lemmas.TxtarQuote
 
@@ -37,6 +38,7 @@ instance : DecidableEq (Except QErr Bytes)
 /-- `NeedsQuote d` is true exactly when `d` contains a marker line, whether or not the body (or
 that line) ends in a newline. -/
 theorem needsQuote_exact : ∀ d, needsQuote d = some (decide (HasMarkerLine d)) :=
+  have : FLen := ⟨rfl⟩; have : FNQ := ⟨rfl⟩
   needsQuote_eq
 
 example : HasMarkerLine (lit "a\n-- x --") := by decide +kernel
@@ -48,12 +50,14 @@ example : needsQuote (lit "a\n --x --\n") = some false := by decide +kernel
 back to exactly that one file, with `fixNL d` as its data. -/
 theorem needsQuote_false_iff_body_safe : ∀ d, needsQuote d = some false ↔
     parse (format ⟨[], [⟨lit "f", d⟩]⟩) = some ⟨[], [⟨lit "f", fixNL d⟩]⟩ := by
+  have : FLen := ⟨rfl⟩; have : FCR := ⟨rfl⟩; have : FLit := ⟨rfl, rfl⟩; have : FNQ := ⟨rfl⟩
   intro d
   rw [needsQuote_false_iff, parse_format_single (by decide +kernel)]
 
 /-- The same for any admissible file name. -/
 theorem needsQuote_false_iff_body_safe_name : ∀ d n, NameOK n → (needsQuote d = some false ↔
     parse (format ⟨[], [⟨n, d⟩]⟩) = some ⟨[], [⟨n, fixNL d⟩]⟩) := by
+  have : FLen := ⟨rfl⟩; have : FCR := ⟨rfl⟩; have : FLit := ⟨rfl, rfl⟩; have : FNQ := ⟨rfl⟩
   intro d n hn
   rw [needsQuote_false_iff, parse_format_single hn]
 
@@ -72,16 +76,19 @@ example : quote (lit "a\n-- x --\n\n>b\n") = .ok (lit ">a\n>-- x --\n>\n>>b\n") 
 
 /-- The quoted form never needs quoting. -/
 theorem quote_not_needsQuote : ∀ d q, quote d = .ok q → needsQuote q = some false :=
+  have : FLen := ⟨rfl⟩; have : FLit := ⟨rfl, rfl⟩; have : FNQ := ⟨rfl⟩
   fun _ _ h => quote_needsQuote h
 
 /-- The quoted form survives Format/Parse unchanged (as the body of a file with an admissible
 name, after any admissible comment). -/
 theorem quote_survives : ∀ d q n, quote d = .ok q → NameOK n →
     parse (format ⟨[], [⟨n, q⟩]⟩) = some ⟨[], [⟨n, q⟩]⟩ :=
+  have : FLen := ⟨rfl⟩; have : FLit := ⟨rfl, rfl⟩
   fun _ _ _ h hn => quote_survives_gen h bodyOK_nil hn
 
 theorem quote_survives_comment : ∀ d q n c, quote d = .ok q → NameOK n → BodyOK c →
     parse (format ⟨c, [⟨n, q⟩]⟩) = some ⟨c, [⟨n, q⟩]⟩ :=
+  have : FLen := ⟨rfl⟩; have : FLit := ⟨rfl, rfl⟩
   fun _ _ _ _ h hn hc => quote_survives_gen h hc hn
 
 example : NameOK (lit "a b") := by decide +kernel
